@@ -22,7 +22,7 @@ Each change was written by a fresh sub-agent that saw only the property text and
 `/repo` (nothing from `/verif`), and was asked for a realistic edit that breaks the property, still imports and
 passes the unedited test suite, and needs something specific to manifest.  A second round asked for changes
 different in kind from the first (other functions, cooperating edits, shared helpers, boundary values); its
-directories are named `<id>-r2mN`.  A fourth round (`<id>-r4mN`, §12e) asked for environment-dependent effects, follow-ups that\nweaken a repair, glue between components and second occurrences.  A third round (`<id>-r3mN`) asked for changes that need state carried between calls,
+directories are named `<id>-r2mN`.  A fifth round (`<id>-r5mN`, §12g) asked for cross-module, type-level, threshold, cache-key and sort-key slips.  A fourth round (`<id>-r4mN`, §12e) asked for environment-dependent effects, follow-ups that\nweaken a repair, glue between components and second occurrences.  A third round (`<id>-r3mN`) asked for changes that need state carried between calls,
 exotic-but-valid encodings, boundary values or shared helpers (what it led to is summarised in §12c; six of its
 patches were rebased by hand after fix commits touched the same lines, the originals are kept beside them).  Every change was re-verified by the coordinator (`tools/verify_seed.sh`: suite
 result unchanged — 236 passed / 3 pre-existing failures — demo fails with the patch and passes without) and kept
